@@ -110,7 +110,7 @@ func HTemplates() {
 	x := func(name string) byte { return nd.Byte(name) }
 	digest := rep(0xab, 32)
 	var in []byte
-	switch nd.Choose("template", nd.Param("T", 17)) {
+	switch nd.Choose("template", nd.Param("T", 20)) {
 	case 0:
 		in = []byte{0xa2, 0x61, x("k1"), x("v1"), 0x61, x("k2"), x("v2")}
 	case 1:
@@ -145,6 +145,14 @@ func HTemplates() {
 		in = []byte{0x82, x("a"), 0xa1, 0x61, x("k"), 0x81, x("b")}
 	case 16:
 		in = []byte{0xa2, 0x62, x("k1"), x("k2"), 0x00, 0x61, x("k3"), x("t")}
+	case 17: // 64-bit (un)signed integers as list elements and map values: first and last argument byte free
+		in = []byte{0x82, 0x01, x("h"), x("hi"), 0xff, 0xff, 0xff, 0xff, 0xff, 0xff, x("lo")}
+		nd.Assume(in[2] == 0x1b || in[2] == 0x3b)
+	case 18:
+		in = []byte{0xa1, 0x61, 0x61, x("h"), x("hi"), 0, 0, 0, 0, 0, 0, x("lo")}
+		nd.Assume(in[3] == 0x1b || in[3] == 0x3b || in[3] == 0xfb)
+	case 19: // floats of every width inside a list
+		in = []byte{0x82, 0xf9, x("a"), x("b"), 0xfa, x("c"), 0, 0, x("d")}
 	}
 	check(in, strict, refcbor.Options{})
 }
